@@ -342,20 +342,17 @@ func vfC07Table(run *vfkit.Run, cs vfC07Case) {
 			}
 			where[s] = vfIQOp{Where: "chan", To: rg.n}
 		}
-		// a channel that delivered must have been closed afterwards (probed without waiting: all routes have returned)
-		if len(rg.got) >= 1 && !rg.closed {
-			closed := false
-			select {
-			case _, ok := <-rg.ch:
-				closed = !ok
-			default:
-			}
-			if !closed && !vfWaitUntil(2*time.Second, func() bool { rg.mu.Lock(); defer rg.mu.Unlock(); return rg.closed }) {
-				rg.mu.Unlock()
-				run.Violation("C07/channel-not-closed-after-delivery", fmt.Sprintf("registration %d (%s) delivered %v but its channel is still open", rg.n, rg.id, rg.got), cs)
+		// a channel that delivered must have been closed afterwards (all routes have returned: the close has happened
+		// or never will; the reader goroutine notices it a moment later)
+		delivered, closedSeen, got := len(rg.got) >= 1, rg.closed, append([]int(nil), rg.got...)
+		rg.mu.Unlock()
+		if delivered && !closedSeen {
+			if !vfWaitUntil(3*time.Second, func() bool { rg.mu.Lock(); defer rg.mu.Unlock(); return rg.closed }) {
+				run.Violation("C07/channel-not-closed-after-delivery", fmt.Sprintf("registration %d (%s) delivered %v but its channel is still open", rg.n, rg.id, got), cs)
 				return
 			}
 		}
+		rg.mu.Lock()
 		rg.mu.Unlock()
 	}
 	mu.Lock()
